@@ -1,4 +1,4 @@
 INIT Init
 NEXT Next
-INVARIANTS ReportExact ReportIsSpec
+INVARIANTS ReportExact ReportIsSpec WireExact ReadBack
 CHECK_DEADLOCK FALSE
